@@ -543,9 +543,45 @@ def run_manual(case):
     return {"ops": outs}
 
 
+def run_elapsed(case):
+    """manual mode with the `{elapsed}` placeholder (outside the Lean model): the frames of a long-running block"""
+    import clikit.ui.components.progress_indicator as pim
+    from clikit.api.io.output import Output
+    from clikit.formatter import AnsiFormatter, PlainFormatter
+    mt = ManualTime()
+    writes = []
+    saved = (pim.threading, pim.time)
+    try:
+        pim.threading, pim.time = FakeThreading(None), mt
+        ansi = case["ansi"]
+        out = Output(_Stream(writes.append, ansi), AnsiFormatter(forced=True) if ansi else PlainFormatter())
+        out.set_verbosity(case["verbosity"])
+        pi = pim.ProgressIndicator(out, fmt=case["fmt"], interval=100)
+        outs = []
+        steps = [("start", 0)] + [("advance", dt) for dt in case["ticks"]] + [("finish", 0)]
+        for what, dt in steps:
+            n0, err = len(writes), None
+            mt.clock += dt
+            try:
+                if what == "start":
+                    pi.start("working")
+                elif what == "advance":
+                    pi.advance()
+                else:
+                    pi.finish("done")
+            except Exception as e:  # noqa: BLE001
+                err = type(e).__name__
+            outs.append({"what": what, "dt": dt, "writes": writes[n0:], "err": err})
+    finally:
+        pim.threading, pim.time = saved
+    return {"steps": outs}
+
+
 def run_impl(case):
     if case["mode"] == "auto":
         return run_auto(case)
+    if case["mode"] == "elapsed":
+        return run_elapsed(case)
     return run_manual(case)
 
 
@@ -557,6 +593,8 @@ def _mcfg(cfg):
 
 
 def model_requests(case):
+    if case["mode"] == "elapsed":
+        return []
     if case["mode"] == "auto":
         return [{"m": "c19.run", "cfg": _mcfg(case["cfg"]), "body": case["body"], "sched": case["sched"],
                  "preempt": case.get("preempt", []), "fuel": case.get("fuel", FUEL), "old": False}]
@@ -564,6 +602,8 @@ def model_requests(case):
 
 
 def model_obs(case, answers):
+    if case["mode"] == "elapsed":
+        return {}
     a = answers[0]
     if case["mode"] == "auto":
         return {"status": a["status"], "executed": a["executed"], "writes": a["writes"], "lines": a["lines"],
@@ -573,6 +613,8 @@ def model_obs(case, answers):
 
 
 def impl_view(case, obs):
+    if case["mode"] == "elapsed":
+        return {}
     if case["mode"] == "auto":
         return {"status": obs["status"], "executed": obs["executed"], "writes": obs["writes"],
                 "lines": term_lines([w[1] for w in obs["writes"]]),
@@ -717,9 +759,24 @@ def oracle_manual(case, obs):
     return None
 
 
+def oracle_elapsed(case, obs):
+    for st in obs["steps"]:
+        if st["err"] is not None:
+            return "%s() %d ms later raised %s (format %r, verbosity %d)" % (st["what"], st["dt"], st["err"],
+                                                                         case["fmt"], case["verbosity"])
+        if st["what"] in ("start", "finish") and not "".join(st["writes"]).strip():
+            return "%s() drew nothing" % st["what"]
+    last = "".join(obs["steps"][-1]["writes"])
+    if "done" not in last:
+        return "the end message is not in the last frame: %r" % last
+    return None
+
+
 def oracle(case, obs):
     if case["mode"] == "auto":
         return oracle_auto(case, obs)
+    if case["mode"] == "elapsed":
+        return oracle_elapsed(case, obs)
     return oracle_manual(case, obs)
 
 
@@ -868,6 +925,8 @@ def generate(tier, rng):
         # (c) random programs, configurations and explicit schedules (arbitrary clock advances), random preemptions after
         _random_auto(n_random, rng),
         (random_manual(rng) for _ in range(n_random // 2)),
+        # (d) the `{elapsed}` placeholder over short and long blocks (oracle only: it is outside the Lean model)
+        _elapsed_cases(),
     ]
     # round-robin, so that every batch the pipeline evaluates holds all kinds of cases
     while streams:
@@ -876,6 +935,16 @@ def generate(tier, rng):
                 yield next(g)
             except StopIteration:
                 streams.remove(g)
+
+
+def _elapsed_cases():
+    fmts = [None, "{indicator} {message} ({elapsed})", "{message} <fg=blue>{elapsed:>6}</>"]
+    tick_lists = [[50, 120], [1000, 1500], [2500, 100], [61000, 3000], [3600000, 7300000], [100, 100, 100, 2100]]
+    for ansi in (True, False):
+        for verbosity in (0, 1, 2, 4):
+            for fmt in fmts:
+                for ticks in tick_lists:
+                    yield {"mode": "elapsed", "ansi": ansi, "verbosity": verbosity, "fmt": fmt, "ticks": ticks}
 
 
 def exhaustive(tier):
@@ -891,6 +960,8 @@ def _sched_key(executed):
 
 
 def nontrivial_key(case, obs):
+    if case["mode"] == "elapsed":
+        return ("elapsed", case["ansi"], case["verbosity"], case["fmt"], str(case["ticks"]))
     if case["mode"] == "auto":
         # non-trivial: the spinner thread took steps, i.e. there was something to interleave
         if "S" not in obs["executed"] or obs["pcs"]["S"] == "notStarted":
@@ -902,6 +973,8 @@ def nontrivial_key(case, obs):
 
 
 def bucket(case, obs):
+    if case["mode"] == "elapsed":
+        return "elapsed:%s:verbosity=%d" % ("ansi" if case["ansi"] else "plain", case["verbosity"])
     if case["mode"] == "auto":
         sw = 0
         ex = [c for c in obs["executed"] if c in ("M", "S")]
@@ -934,6 +1007,9 @@ def shrink(case):
                 c = dict(case)
                 c["body"] = case["body"][:i] + [["work", 100]] + case["body"][i + 1:]
                 yield c
+    elif case["mode"] == "elapsed":
+        for i in range(len(case["ticks"])):
+            yield dict(case, ticks=case["ticks"][:i] + case["ticks"][i + 1:])
     else:
         for i in range(len(case["ops"])):
             c = dict(case)
@@ -956,6 +1032,8 @@ def manual_of(case):
 
 
 def neighbours(case):
+    if case["mode"] == "elapsed":
+        return
     if case["mode"] == "auto":
         yield manual_of(case)
         yield manual_of(dict(case, body=[["set", "n"], ["work", 100]] + case["body"]))
